@@ -403,9 +403,10 @@ var nonUTF8S = []byte{0xff, 0x00, 0xc3, 0x28, 0x80}
 func init() {
 	Register(&Check{
 		ID: "C11", Level: "exploration",
-		Rule:        "write side: product of field values (4 strings per field, 6 i32, 5 map shapes, nil receiver); read side: inputs built by the reference encoder — every ordered selection of the known fields x unknown fields at every gap (none, one of every generated value under ids 100/-1/ids colliding with known ids under other types, two) x trailing bytes; distinct = distinct struct encodings",
-		Assumptions: []string{"map entries are compared order-insensitively (Go map iteration order is not owned by the harness)"},
-		Run:         c11Run,
+		Rule:          "write side: product of field values (4 strings per field, 6 i32, 5 map shapes, nil receiver); read side: inputs built by the reference encoder — every ordered selection of the known fields x unknown fields at every gap (none, one of every generated value under ids 100/-1/ids colliding with known ids under other types, two) x trailing bytes; distinct = distinct struct encodings",
+		Assumptions:   []string{"map entries are compared order-insensitively (Go map iteration order is not owned by the harness)"},
+		Run:           c11Run,
+		UnownedNondet: func(sub string, raw json.RawMessage) bool { return true },
 		Replay: func(c *mc.Ctx, sub string, raw json.RawMessage) {
 			if sub == "write" {
 				replayAs(raw, func(v c11Val) { c11Write(c, v) })
